@@ -65,8 +65,12 @@ structure StepOut where
   retryIn : Option Nat             -- `some w`: timestamp now + w written, message re-queued
 deriving Repr, DecidableEq
 
-def deleteIdxs (idxs : List Nat) (l : List Rcpt) : List Rcpt :=
-  (l.zipIdx.filter fun (_, i) => !idxs.contains i).map Prod.fst
+/-- The recipients left after `set_recipients_delivered(id, idxs)`: positions in `idxs` are gone. -/
+def delIdxAux (idxs : List Nat) (i : Nat) : List Rcpt → List Rcpt
+  | [] => []
+  | x :: xs => if idxs.contains i then delIdxAux idxs (i + 1) xs else x :: delIdxAux idxs (i + 1) xs
+
+def deleteIdxs (idxs : List Nat) (l : List Rcpt) : List Rcpt := delIdxAux idxs 0 l
 
 /-- `_retry_later(id, envelope, replies)` where `pairs` are the recipients still outstanding with
     the reply each failed with. -/
